@@ -49,3 +49,85 @@ Definition ch_in_force (cs : list text) (s : Z) : list Z :=
 Definition ch_clash (cs : list text) (start end_ : Z) : Prop :=
   exists c1 c2, In c1 cs /\ In c2 cs /\ tx_qstep c1 = tx_qstep c2 /\
                 start <= tx_qstep c1 < end_ /\ tx_text c1 <> tx_text c2.
+
+(** * Performance: what a rendered performance must give back for every selected note *)
+Definition pf_selected (p : pf_params) (ns : list note) : list note :=
+  filter (pf_keep (fp_start p) (fp_instrument p)) ns.
+
+(** the velocity a note comes back with: the representative of its bin, or the caller's default
+    velocity when velocity events are disabled (num_velocity_bins = 0) *)
+Definition pf_vel_rep (nb default_velocity v : Z) : Z :=
+  if nb =? 0 then default_velocity else bin_to_vel (vel_to_bin v nb) nb.
+
+Definition pf_note_proj (nb default_velocity : Z) (n : note) : snote :=
+  (n_pitch n, n_qstart n, n_qend n, pf_vel_rep nb default_velocity (n_vel n)).
+
+Definition sum_shifts (evs : list pevent) : Z :=
+  fold_right (fun e acc => if fst e =? EV_TIME_SHIFT then snd e + acc else acc) 0 evs.
+
+(** steps from start_step to the end of the last selected note *)
+Definition pf_elapsed (p : pf_params) (ns : list note) : Z :=
+  fold_right Z.max 0 (map (fun n => n_qend n - fp_start p) (pf_selected p ns)).
+
+(** no two notes of one pitch overlap (in particular no note occurs twice) *)
+Definition no_pitch_overlap (l : list note) : Prop :=
+  NoDup l /\
+  forall a b, In a l -> In b l -> a <> b -> n_pitch a = n_pitch b ->
+    n_qend a <= n_qstart b \/ n_qend b <= n_qstart a.
+
+(** * Melody.  [cs] = the candidate notes (right instrument, at or after search_start_step, not a
+    filtered drum, non-zero velocity) sorted by (start step, pitch descending).
+    [mel_heads]: the first (= highest) candidate of every start step.
+    [mel_accepted]: the heads up to (excluding) the first one that starts [gap_steps] or more
+    steps after the END of the previous accepted note. *)
+Fixpoint mel_heads_from (prev : Z) (cs : list note) : list note :=
+  match cs with
+  | [] => []
+  | a :: r => if n_qstart a =? prev then mel_heads_from prev r
+              else a :: mel_heads_from (n_qstart a) r
+  end.
+
+Definition mel_heads (cs : list note) : list note :=
+  match cs with [] => [] | a :: r => a :: mel_heads_from (n_qstart a) r end.
+
+Fixpoint mel_cut (gap_steps : Z) (prev : note) (l : list note) : list note :=
+  match l with
+  | [] => []
+  | b :: r => if gap_steps <=? n_qstart b - n_qend prev then [] else b :: mel_cut gap_steps b r
+  end.
+
+Definition mel_accepted (gap_steps : Z) (cs : list note) : list note :=
+  match mel_heads cs with [] => [] | a :: r => a :: mel_cut gap_steps a r end.
+
+(** the last accepted note starting at or before step [s] *)
+Definition mel_current (acc : list note) (s : Z) : option note :=
+  fold_left (fun o b => if n_qstart b <=? s then Some b else o) acc None.
+
+(** event at absolute step [s] while the melody lasts: onset of the accepted note starting at [s];
+    NOTE_OFF where the current note ends (nothing newer having started); NO_EVENT otherwise *)
+Definition mel_event_at (acc : list note) (s : Z) : Z :=
+  match mel_current acc s with
+  | None => MELODY_NO_EVENT
+  | Some b => if n_qstart b =? s then n_pitch b
+              else if n_qend b =? s then MELODY_NOTE_OFF else MELODY_NO_EVENT
+  end.
+
+(** event [i] of a melody that starts at [mss] and whose last accepted note ends at step
+    [mss + L]: the final note's NOTE_OFF (index L) exists only if the melody is padded beyond it *)
+Definition mel_spec_event (acc : list note) (mss L i : Z) : Z :=
+  if i <? L then mel_event_at acc (mss + i)
+  else if i =? L then MELODY_NOTE_OFF else MELODY_NO_EVENT.
+
+(** a candidate other than the accepted note itself starts on an accepted note's step *)
+Fixpoint mel_dup (gap_steps : Z) (b : note) (cs : list note) : bool :=
+  match cs with
+  | [] => false
+  | n :: r => if n_qstart n =? n_qstart b then true
+              else if gap_steps <=? n_qstart n - n_qend b then false
+              else mel_dup gap_steps n r
+  end.
+
+(** polyphony as the property states it: two candidates (two positions of [cs]) start on the step
+    of an accepted note *)
+Definition mel_poly (cs acc : list note) : Prop :=
+  exists l1 a l2 n l3, cs = l1 ++ a :: l2 ++ n :: l3 /\ n_qstart n = n_qstart a /\ In a acc.
